@@ -252,6 +252,33 @@ static void exec_op(World *w, const json &op) {
 			if (r && o == "UpdKey") w->have[i].insert(from);
 			if (r && o == "RemKey") w->have[i].erase(from);
 			ev["res"] = r; ev["hc"] = mpz2l(P.vt->h); ev["nk"] = P.vt->KeyGenerationProtocol_NumberOfKeys();
+		} else if (o == "IKey") {
+			// interactive (private-coin) proof of knowledge of a key share: prover `from`, verifier i.  The three moves are run
+			// one after the other: the challenge is fixed first (it is the verifier's only coin and is dictated to it), the
+			// prover runs on a stream that holds it, a man in the middle may change one of the two prover messages or the key
+			size_t from = op["from"];
+			BarnettSmartVTMF_dlog *A = w->pl[from].vt;
+			Mpz c((long)rnd(mpz_get_ui(GQ)));
+			if (op.contains("c")) c = Mpz(op["c"].get<long>());
+			std::stringstream pin, pout; pin << (mpz_srcptr)c.v << std::endl;
+			seam::clear_script();
+			bool pr = A->KeyGenerationProtocol_ProveKey_interactive(pin, pout);
+			ev["pcoins"] = coins();
+			std::vector<Mpz> m = parse_nums(pout.str());
+			ev["honest"] = nums_j(m); ev["pres"] = pr; ev["x"] = mpz2l(A->x_i);
+			std::string mut = op.value("mut", std::string("none")); int pub = op.value("pub", 0);
+			Mpz key = Mpz(mpz2s(A->h_i));
+			bool applied = true;
+			if (pub == 0) applied = mutate(m, op.value("pos", 0), mut);
+			else { std::vector<Mpz> one(1); one[0] = key; applied = mutate(one, 0, mut) && one.size() == 1; if (applied) key = one[0]; }
+			ev["from"] = from; ev["mut"] = mut; ev["pos"] = op.value("pos", 0); ev["pub"] = pub; ev["applied"] = applied;
+			ev["c"] = c.l(); ev["msg"] = nums_j(m); ev["key"] = num(key);
+			std::stringstream vin(print_nums(m)), vout;
+			seam::clear_script(); seam::push_be_ui(LQ, mpz_get_ui(c));
+			bool r = P.vt->KeyGenerationProtocol_VerifyKey_interactive(key.v, vin, vout);
+			ev["coins"] = coins();
+			ev["vsent"] = nums_j(parse_nums(vout.str()));
+			ev["res"] = r; ev["hc"] = mpz2l(P.vt->h); ev["nk"] = P.vt->KeyGenerationProtocol_NumberOfKeys();
 		} else if (o == "Fin") {
 			P.vt->KeyGenerationProtocol_Finalize();
 			ev["hc"] = mpz2l(P.vt->h);
@@ -566,6 +593,20 @@ static json random_schedule(unsigned long seed, long x) {
 			if (rnd(100) < F.keychurn) { add({{"op", "RemKey"}, {"i", i}, {"from", j}}); if (rnd(3) == 0) add({{"op", "RemKey"}, {"i", i}, {"from", j}}); add({{"op", "UpdKey"}, {"i", i}, {"from", j}}); }
 		}
 		add({{"op", "Fin"}, {"i", i}});
+	}
+	// interactive proofs of knowledge of the key shares: honest, one prover message changed by a man in the middle, another key
+	if (np >= 2 && (FOCUS == "c03" || FOCUS == "c05" || FOCUS == "c08" || FOCUS == "all" || rnd(4) == 0)) {
+		size_t reps = 1 + rnd(3);
+		for (size_t rp = 0; rp < reps; rp++) {
+			size_t i = rnd(np), j = (i + 1 + rnd(np - 1)) % np;
+			add({{"op", "IKey"}, {"i", i}, {"from", j}});
+			if (rnd(8) == 0) add({{"op", "IKey"}, {"i", i}, {"from", j}, {"c", (long)rnd(2)}});
+			for (size_t m = 0; m < F.muts + (F.keymut > 0 ? 1 : 0); m++) {
+				add({{"op", "IKey"}, {"i", i}, {"from", j}, {"mut", MUTS[1 + rnd(NMUTS - 1)]}, {"pos", rnd(2)}});
+				if (rnd(2)) add({{"op", "IKey"}, {"i", i}, {"from", j}, {"mut", "plusq"}, {"pos", 1}});
+				if (rnd(2)) add({{"op", "IKey"}, {"i", i}, {"from", j}, {"mut", MUTS[1 + rnd(NMUTS - 2)]}, {"pub", 1}});
+			}
+		}
 	}
 	// cards: create, mask chains, proofs, open
 	long cid = 0;
